@@ -116,6 +116,9 @@ Section ListHeader.
     lh_emit header (lh_start s) (lh_end s) (lh_qstart s) (length header) (lh_out s).
 End ListHeader.
 
+(** [x] occurs in [h] as a contiguous piece *)
+Definition substr (x h : bytes) : Prop := exists p q, h = p ++ x ++ q.
+
 (** ** Reference grammar for [list_header_wf]: RFC 7231 [#( codings [ weight ] )] with OWS.
     A member is OWS name [ OWS ";" OWS "q=" qvalue ] OWS; members are separated by ",". *)
 Record member := mkMember {
